@@ -236,6 +236,49 @@ class Env:
             self._record(name, 'failed', {'err': err, 'lhs': l.reshape(-1)[:8].tolist(), 'rhs': r.reshape(-1)[:8].tolist()})
             return False
 
+    def eq_order(self, name, lhs, rhs, wrt, order, tol=None):
+        """lhs - rhs = O(|wrt|^order): the difference is a polynomial (no denominators in wrt) without
+        terms of total degree < order in the variables of the input tensor(s) wrt"""
+        if self.mode != 'sym':
+            return self.eq(name, lhs, rhs, tol)
+        vids = set()
+        for w in (wrt if isinstance(wrt, (list, tuple)) else [wrt]):
+            for e in st._T(w)._a.flat: vids |= e.vars()
+        la = st._T(lhs)._a; ra = st._T(rhs)._a
+        shape = np.broadcast_shapes(la.shape, ra.shape)
+        la = np.broadcast_to(la, shape); ra = np.broadcast_to(ra, shape)
+        worst = None; vals = []
+        for idx in np.ndindex(shape):
+            d = Frac.of(la[idx]) - Frac.of(ra[idx])
+            vals.append(Frac.of(la[idx]))
+            if d.num.is_zero(): continue
+            if any(f.vars() & vids for f in d.den):
+                worst = (idx, 'denominator depends on the expansion variables'); break
+            md = d.num.min_degree_in(vids)
+            if md < order:
+                worst = (idx, f'term of degree {md} < {order}: {d!r}'[:400]); break
+        self.values[name] = vals
+        if worst:
+            self._record(name, 'failed', {'entry': list(worst[0]), 'why': worst[1]}); return False
+        self._record(name, 'proved', {'entries': int(np.prod(shape)) if shape else 1, 'backend': 'nf', 'order': order})
+        return True
+
+    def backward(self, F, inputs, g):
+        """(output, grads) of a torch.autograd.Function: sym: forward + setup_context + backward of the
+        real class; num: real autograd on the real class"""
+        if self.mode == 'sym':
+            out = F.apply(*inputs)
+            ctx = st.LAST_CTX[F.__name__]
+            grads = F.backward(ctx, g)
+            if not isinstance(grads, tuple): grads = (grads,)
+            return out, grads
+        T = self.T
+        ins = [x.detach().clone().requires_grad_(True) for x in inputs]
+        out = F.apply(*ins)
+        grads = T.autograd.grad(out, ins, grad_outputs=g, allow_unused=True)
+        grads = tuple(gr if gr is not None else T.zeros_like(x) for gr, x in zip(grads, ins))
+        return out.detach(), grads
+
     def holds(self, name, cond):
         """boolean obligation; cond is a (tensor of) comparison result(s) built with the T namespace"""
         if self.mode == 'sym':
